@@ -338,11 +338,11 @@ ENTRY_CLASS = {
     "direct_sampling": "DirectSampling", "and": "AndC", "or": "OrC", "plot_marginal_quantiles": "PlotMarginalQuantiles",
     "plot_dependence_functions": "PlotDependenceFunctions", "plot_histograms": "PlotHistograms", "plot_isodensity": "PlotIsodensity",
 }
-GHM2 = ["pdf", "marginal_pdf", "marginal_cdf0", "marginal_icdf0", "marginal_icdf_mc", "conditional_cdf", "conditional_icdf",
+GHM2 = ["draw_sample_seeded", "dist_sample_seeded", "pdf", "marginal_pdf", "marginal_cdf0", "marginal_icdf0", "marginal_icdf_mc", "conditional_cdf", "conditional_icdf",
         "draw_sample_seeded", "draw_sample", "dist_pdf", "dist_cdf", "dist_icdf", "dist_sample_seeded", "iform", "isorm", "hdc",
         "hdc_default", "direct_sampling", "and", "or", "plot_marginal_quantiles", "plot_dependence_functions", "plot_histograms",
         "plot_isodensity"]
-GHM3 = ["pdf", "marginal_cdf0", "draw_sample_seeded", "draw_sample", "dist_pdf", "dist_cdf", "dist_icdf", "dist_sample_seeded",
+GHM3 = ["draw_sample_seeded", "pdf", "marginal_cdf0", "draw_sample_seeded", "draw_sample", "dist_pdf", "dist_cdf", "dist_icdf", "dist_sample_seeded",
         "iform", "isorm", "hdc", "plot_dependence_functions"]
 TRANS = ["pdf", "draw_sample", "empirical_cdf_sample", "direct_sampling", "and", "or"]
 CONTOURS = {"iform", "isorm", "hdc", "hdc_default", "direct_sampling", "and", "or"}
@@ -358,6 +358,7 @@ class World:
         self.arrays = []          # the caller's objects (arrays, lists, dicts) by number
         self.arr_role = []
         self.tmp = tempfile.mkdtemp(prefix="c19-", dir=os.path.join(vlib.BUILD, "C19"))
+        self.live = {}            # position in the history -> contour object built there
         for k, nm in enumerate(names):
             # initial state: every model is fitted once to its own data before the history starts; if scipy's
             # optimiser gives up on a data set, a fresh model and another data set are taken
@@ -401,6 +402,21 @@ class World:
                 snap(obj, "fitdesc%d" % a, s, {})
             else:
                 snap(obj, "arr%d" % a, s, {})
+        memo = {}
+        for k, r in enumerate(self.recs):
+            memo[id(r["model"])] = "model%d" % k
+            memo[id(r["inner"])] = "model%d%s" % (k, ".model" if r["transformed"] else "")
+        for a, obj in enumerate(self.arrays):
+            if obj is not None:
+                memo[id(obj)] = "arr%d" % a
+        for pos, obj in sorted(self.live.items()):
+            snap(obj, "obj%d" % pos, s, memo)
+        import sys
+        for mn, mod in sorted(sys.modules.items()):
+            if mn == "virocon" or mn.startswith("virocon."):
+                for nm, val in sorted(vars(mod).items()):
+                    if not nm.startswith("__") and isinstance(val, (list, dict, set, np.ndarray)) and nm != "__all__":
+                        snap(val, "glob:%s.%s" % (mn, nm), s, {})
         st = np.random.get_state()
         s["rng"] = ("rng", hashlib.sha1(st[1].tobytes()).hexdigest(), st[2], st[3])
         s["figs"] = ("figs", tuple(plt.get_fignums()))
@@ -411,6 +427,10 @@ class World:
             return "Rng"
         if path == "figs":
             return "Figs"
+        if path.startswith("obj"):
+            return ("Obj", int(path[3:].split("[")[0].split(".")[0].split("<")[0]))
+        if path.startswith("glob:"):
+            return ("Globals", path[5:].split("[")[0])
         if path.startswith("arr"):
             return ("Arr", int(path[3:].split("[")[0].split(".")[0].split("<")[0]))
         if path.startswith("fitdesc"):
@@ -549,6 +569,8 @@ def gen_history(rng, names, quick, maxlen=6):
     while len(ops) < L:
         u = rng.random()
         dets = [o for o in ops if o["op"] == "eval" and o["det"]]
+        if len(ops) == L - 1 and dets and rng.random() < 0.7:
+            u = 0.0                                 # close the history with a repetition
         conts = [o for o in ops if o["op"] == "eval" and o["entry"] in CONTOURS and o["dim2"]]
         if u < 0.25 and dets:                       # repeat an earlier deterministic evaluation
             o = dict(rng.choice(dets))
@@ -662,6 +684,7 @@ def run_history(names, ops, seed, keep_results=False):
                 cells.setdefault(world.cell_of(p), []).append(p)
             if op["op"] == "eval" and op["entry"] in CONTOURS and res is not None:
                 results[op["id"]] = res
+                world.live[pos] = res
             if res is not None:
                 values[op["id"]] = result_value(res)
             plt.close("all")
@@ -685,6 +708,12 @@ def classify(names, ops, obs, wsets):
             if isinstance(cell, tuple) and cell[0] == "Arr":
                 viol.append(({"clause": "input-array", "site": op.get("entry") or op.get("post") or "fit"},
                              "%s changed the caller's object %s" % (where, paths[0])))
+            elif isinstance(cell, tuple) and cell[0] == "Obj":
+                viol.append(({"clause": "contour-mutated", "site": op.get("entry") or op.get("post") or "fit"},
+                             "%s changed the contour object built at step %d: %s" % (where, cell[1], paths[0])))
+            elif isinstance(cell, tuple) and cell[0] == "Globals":
+                viol.append(({"clause": "module-state", "site": op.get("entry") or op.get("post") or "fit"},
+                             "%s changed module-level state %s (shared by every model)" % (where, cell[1])))
             elif isinstance(cell, tuple) and cell[0] == "M":
                 k2, f = cell[1], cell[2]
                 fixed = f == "Struct" or (isinstance(f, tuple) and f[0] in ("Template", "Slicer"))
@@ -761,7 +790,7 @@ def run(ctx):
     rng = ctx.rng
     os.makedirs(os.path.join(vlib.BUILD, "C19"), exist_ok=True)
     getter_graph_check(ctx)
-    nh = ctx.n(70, 700)
+    nh = ctx.n(70, 220)
     names_pool = GETTERS + ["custom3d"]
     hist = []
     for h in range(nh):
@@ -774,7 +803,7 @@ def run(ctx):
     if not ctx.quick():
         # all interleavings of a 4-operation alphabet on two models of the same getter
         import itertools
-        for g in ("get_OMAE2020_V_Hs", "get_DNVGL_Hs_Tz", "get_Windmeier_EW_Hs_S"):
+        for g in ("get_OMAE2020_V_Hs", "get_DNVGL_Hs_Tz"):
             alpha = [{"op": "eval", "k": 0, "entry": "pdf", "det": True, "dim2": True},
                      {"op": "eval", "k": 0, "entry": "direct_sampling", "det": True, "dim2": True, "alpha": 0.05},
                      {"op": "fit", "k": 1, "data": 9 + 1, "fd": None}, {"op": "fit", "k": 0, "data": 1, "fd": None}]
@@ -877,7 +906,7 @@ def run(ctx):
             ops, v2 = hh["ops"], [(sig, msg)]
         if ctx.violation(v2[0][0], v2[0][1], {"kind": "history", "models": hh["models"], "ops": ops, "seed": hh["seed"]}):
             reported += 1
-    ctx.notes["input_distribution"] = {"histories": len(hist), "operations_per_history": "3-6 (thorough: + all 256 interleavings of a 4-operation alphabet on 3 getters)",
+    ctx.notes["input_distribution"] = {"histories": len(hist), "operations_per_history": "3-6 (thorough: + all 256 interleavings of a 4-operation alphabet on 2 getters)",
                                        "models_per_history": "2-3, from fresh getter calls (35% two calls of the same getter) or a fresh 3-D description"}
     ctx.cov["rule"] = ("histories of evaluate / contour / design-conditions / plot / save / fit operations over 2-3 models from fresh descriptions; "
                        "non-trivial = the history contains a fit and a repeated deterministic operation; distinct = hash of (models, operations); "
